@@ -159,6 +159,7 @@ def handle (line : String) : String × String :=
   | ["search", mb, jobs] => searchHandle mb jobs
   | ["verify", fen, played, best, infos] => verifyHandle fen played best infos
   | ["ctl", cmds] => ctlHandle cmds
+  | "ucimoves" :: rest => ucimovesHandle ("\t".intercalate rest)
   | ["game", fen, moves] => gameHandle fen moves
   | ["game", fen] => gameHandle fen ""
   | _ => bad
@@ -367,6 +368,7 @@ def main (args : List String) : IO UInt32 := do
   | ["gen", "draws", seed, n, roots] => genDraws seed.toNat! n.toNat! roots; return 0
   | ["gen", "fen", seed, n, roots] => genFen seed.toNat! n.toNat! roots; return 0
   | ["gen", "games", seed, n, roots] => genGames seed.toNat! n.toNat! roots; return 0
+  | ["gen", "ucimoves", seed, n] => genUciMoves seed.toNat! n.toNat!; return 0
   | ["gen", "tt", seed, n, big] => genTT seed.toNat! n.toNat! (big == "1"); return 0
   | ["gen", "limits", seed, n] => genLimits seed.toNat! n.toNat!; return 0
   | ["gen", "eval", seed, n, roots] => genEval seed.toNat! n.toNat! roots; return 0
